@@ -45,3 +45,93 @@ LEVEL_TEXT = ('Deductive proof of (1) the frame rule "only fresh tokens are stam
     'that every macro/environment declaration satisfies the argument-code requirement (CodeReq) of its handler.')
 LEVEL_NOTE = 'The composition "argument tokens lie inside the construct" is assumed, not proved. ' + cm.TRUSTED_CORE[0]
 TECHNIQUE = 'contract-based deductive verification: generic handler contract with ghost interval, freshness obligations at every token field store, z3'
+
+
+def repeated_constructs_bounded(seed):
+    """generated text maps into the construct that generated it, also when
+    the SAME construct is used again (the deductive part proves the frame
+    rule "only fresh tokens are stamped" per handler; cached or shared
+    tokens in code outside the handlers under contract escape it).  Documents
+    `W0 <use> W1 <use> W2 <use> Wend` for 9 generating constructs (user
+    macro with and without default, \\cref / \\crefrange through a poorman
+    sed file, \\ref, \\LaTeX, \\item with label, \\gls, heading): every
+    output character between two marker words must map between them in the
+    source"""
+    import contextlib
+    import io
+    import os
+    import re
+    import shutil
+    import tempfile
+    from pyvc import replay as _r
+    t2t = _r.real_module('yalafi.tex2txt')
+    tmp = tempfile.mkdtemp(prefix='c04_rep_')
+    sed = ('s/\\\\cref{sec:a}/section\\\\nobreakspace 1/g\n'
+           's/\\\\crefrange{eq:1}{eq:3}/eqs.\\\\nobreakspace '
+           '\\\\textup {(\\\\ref {eq:1})} to\\\\nobreakspace '
+           '\\\\textup {(\\\\ref {eq:3})}/g\n')
+    with open(os.path.join(tmp, 'r.sed'), 'w') as f:
+        f.write(sed)
+    sedfile = os.path.join(tmp, 'r.sed')
+    cases = [
+        ('', '\\newcommand{\\mm}[1]{<#1 and more>}\n', '\\mm{xy}'),
+        ('', '\\newcommand{\\mo}[2][dflt val]{<#1|#2>}\n', '\\mo{xy}'),
+        ('cleveref', '\\usepackage[poorman]{cleveref}\n'
+         '\\YYCleverefInput{%s}\n' % sedfile, '\\cref{sec:a}'),
+        ('cleveref', '\\usepackage[poorman]{cleveref}\n'
+         '\\YYCleverefInput{%s}\n' % sedfile, '\\crefrange{eq:1}{eq:3}'),
+        ('', '', '\\ref{lab}'), ('', '', '\\LaTeX{}'),
+        ('', '', '\\begin{itemize}\\item[lb] it\\end{itemize}'),
+        ('', '', '\\begin{enumerate}\\item it\\end{enumerate}'),
+        ('', '', '\\section{Head}'),
+    ]
+    n, fails = 0, []
+    try:
+        for pack, pre, use in cases:
+            body = ''.join('W%d %s ' % (k, use) for k in range(3)) + 'Wend\n'
+            src = pre + body
+            n += 1
+            try:
+                with contextlib.redirect_stderr(io.StringIO()):
+                    txt, pos = t2t.tex2txt(src, t2t.Options(
+                        pack=pack or None))
+            except BaseException as e:      # noqa
+                fails.append({'source': src, 'why': 'exception %r' % (e,)})
+                continue
+            marks = ['W0', 'W1', 'W2', 'Wend']
+            at = []
+            for m_ in marks:
+                i = txt.find(m_)
+                j = src.find(m_, len(pre))
+                if i < 0 or j < 0:
+                    at = None
+                    break
+                at.append((i, j))
+            if at is None:
+                fails.append({'source': src, 'text': txt,
+                              'why': 'marker word lost'})
+                continue
+            why = None
+            for k in range(3):
+                (i0, j0), (i1, j1) = at[k], at[k + 1]
+                for c in range(i0 + len(marks[k]), i1):
+                    p0 = pos[c] - 1
+                    if not (j0 + len(marks[k]) - 1 <= p0 <= j1):
+                        why = ('character %r of use %d maps to offset %d, '
+                               'the use stands at %d..%d' % (
+                                   txt[c], k, p0, j0 + len(marks[k]), j1))
+                        break
+                if why:
+                    break
+            if why:
+                fails.append({'source': src, 'text': txt, 'why': why})
+                if len(fails) >= 3:
+                    break
+    finally:
+        shutil.rmtree(tmp, ignore_errors=True)
+    return {'name': 'repeated-constructs-map-into-their-own-use',
+            'bounded': True, 'bound': '9 constructs, three uses each',
+            'evaluations': n, 'failures': fails}
+
+
+QUICK_BOUNDED = [repeated_constructs_bounded]
